@@ -47,7 +47,21 @@ def main(argv):
     except tlc.TLCError as e:
         print("MACHINERY FAILURE (TLC): %s" % str(e)[-3000:])
         return 2
-    except Exception:
+    except Exception as e:
+        # An exception that comes out of the library under test (a frame in AHRS_REPO/ahrs) where the unchanged tree raises
+        # none is a finding of the run, not a failure of the machinery: report it as a violation with the traceback as replay.
+        tb = traceback.format_exc()
+        cause = getattr(e, "__cause__", None)
+        text = tb + (str(cause) if cause is not None else "")
+        lib = os.path.join(os.path.abspath(REPO), "ahrs") + os.sep
+        if lib in text:
+            frames = [l.strip() for l in text.splitlines() if lib in l]
+            where = frames[-1].split(lib)[-1].split('"')[0] if frames else "?"
+            try:
+                chk.fail("%s|uncaught-%s-in-%s" % (pid, type(e).__name__, where), {"traceback": text[-3000:]})
+                return chk.finish()
+            except Exception:
+                pass
         traceback.print_exc()
         print("MACHINERY FAILURE")
         return 2
